@@ -3,6 +3,8 @@
 //   Sc Sp Sd Sf Ss : setSurplusRefinement(tol, classic|parents|direction|fds|stable, output, limits)   (local polynomial / wavelet)
 //   Sv             : classic through the container overload with a symbolic scale correction of the documented size
 //   Sg             : setSurplusRefinement(tol, output)  (sequence / global with sequence rule)      A : setAnisotropicRefinement
+//   K : dynamic construction (beginConstruction, deliver the first <= 3 candidates in lexicographic order, finishConstruction)
+//   ? : an operation chosen by the solver from the alphabet of the grid family (the path classes enumerate the histories)
 //   L : loadNeededValues (needed points; when none are needed an overwriting reload with fresh values)  M : mergeRefinement  C : clearRefinement  U : updateGrid(depth+1)  Ud : updateGrid(same depth: nothing new is selected)
 #include "tgrid.hpp"
 #include <sstream>
@@ -29,9 +31,38 @@ int main(int argc, char **argv){
   std::vector<std::string> steps; { std::stringstream ss(ops); std::string it; steps.push_back("L"); while (std::getline(ss, it, ',')) if (!it.empty()) steps.push_back(it); }
   int step_no = 0;
   for (auto &op : steps){
+    if (op == "?"){
+      // solver-chosen operation: the choice is a symbolic integer, every alternative is a path class of the exploration
+      static const char *glob[] = {"L", "A", "U", "Ud", "C", "M", "K", "Sg"}; static const char *loc[] = {"L", "Sc", "Sf", "Ss", "Sp", "C", "M", "K", "Sv"};
+      bool local = grid.isLocalPolynomial() || grid.isWavelet();
+      int nalt = local ? (grid.isLocalPolynomial() ? 9 : 8) : ((grid.isSequence() || (grid.isGlobal() && OneDimensionalMeta::isSequence(grid.getRule()))) ? 8 : 7);
+      int pick = fpsym_choice(40 + step_no, nalt, (3 * step_no + 1) % nalt);
+      op = local ? loc[pick] : glob[pick];
+      fpsym_note(("history_step_" + std::to_string(step_no)).c_str(), pick);
+    }
     Snapshot before = snap(grid, probe);
     std::string tag = "step " + std::to_string(step_no) + " (" + op + "): ";
-    if (op == "L"){
+    if (op == "K"){
+      if (grid.getNumLoaded() == 0 && grid.getNumNeeded() == 0){ step_no++; continue; }
+      grid.beginConstruction();
+      bool local = grid.isLocalPolynomial() || grid.isWavelet();
+      std::vector<double> cand = local ? grid.getCandidateConstructionPoints(0.0, refine_classic, -1, g.ll) : grid.getCandidateConstructionPoints(type_level, 0, g.ll);
+      std::vector<Pt> cp = split(cand, d); std::sort(cp.begin(), cp.end());    // the priority order depends on the values: take them in lexicographic order
+      size_t take = std::min<size_t>(cp.size(), 3); std::vector<double> x; for (size_t i=0;i<take;i++) x.insert(x.end(), cp[i].begin(), cp[i].end());
+      if (take) grid.loadConstructedPoints(x, model.values(x, d));
+      grid.finishConstruction();
+      zeroed = false;
+      Snapshot after = snap(grid, probe);
+      bool kept = true; for (auto &p : before.loaded) if (std::find(after.loaded.begin(), after.loaded.end(), p) == after.loaded.end()) kept = false;
+      fpsym_check(kept, (tag + "construction never removes a loaded point").c_str());
+      fpsym_check(after.needed.empty(), (tag + "beginConstruction() drops a pending refinement: nothing is needed after finishConstruction()").c_str());
+      fpsym_check(after.loaded.size() <= before.loaded.size() + take, (tag + "construction loads at most the delivered samples").c_str());
+      if (outs > 0 && !after.loaded.empty() && (!grid.isLocalPolynomial() || lpParentComplete(grid))){
+        int nl = (int) after.loaded.size(); std::set<int> pick = {0, nl / 2, nl - 1};
+        for (int i : pick){ std::vector<double> y; grid.evaluate(after.loaded[i], y); const std::vector<double> &want = model.at(after.loaded[i]);
+          for (int k=0;k<outs;k++) fpsym_eq(y[k], want[k], 50.0 * (2.0 + nl), (tag + "after construction the surrogate reproduces the supplied value at its coordinates").c_str()); }
+      }
+    } else if (op == "L"){
       if (grid.getNumNeeded() > 0){ grid.loadNeededValues(model.values(grid.getNeededPoints(), d)); }
       else { model.renew(); model.next_id = 3000 + 500 * step_no; grid.loadNeededValues(model.values(grid.getLoadedPoints(), d)); }
       zeroed = false;
@@ -54,7 +85,18 @@ int main(int argc, char **argv){
       bool is_refine = true;
       if (op == "Sc" || op == "Sp" || op == "Sd" || op == "Sf" || op == "Ss"){
         const char *nm = op == "Sc" ? "classic" : op == "Sp" ? "parents" : op == "Sd" ? "direction" : op == "Sf" ? "fds" : "stable";
+        std::vector<Pt> want; bool exact = (op == "Sc") && !g.ll.empty();
+        if (exact){
+          // classic criterion with level limits: exactly the children of the unlimited proposal whose 1-D levels respect the limits (levels taken from
+          // the point sets of 1-D grids of that depth, not from the library's level function)
+          TasmanianSparseGrid twin(grid); twin.clearLevelLimits(); twin.setSurplusRefinement(tol, refine_classic, output, std::vector<int>());
+          std::vector<std::vector<double>> adm(d);
+          for (int j=0;j<d;j++){ if (g.ll[j] < 0) continue; GridSpec s1 = g; s1.dims = 1; s1.outputs = 0; s1.depth = g.ll[j]; s1.ll.clear(); s1.aw.clear(); if (g.transform){ s1.ta = {g.ta[j]}; s1.tb = {g.tb[j]}; } TasmanianSparseGrid one; makeGrid(one, s1); adm[j] = one.getPoints(); }
+          for (auto &p : split(twin.getNeededPoints(), d)){ bool ok = true; for (int j=0;j<d;j++){ if (g.ll[j] < 0) continue; bool in = false; for (double v : adm[j]) if (std::fabs(v - p[j]) < 1e-11) in = true; if (!in) ok = false; } if (ok) want.push_back(p); }
+        }
         grid.setSurplusRefinement(tol, IO::getTypeRefinementString(nm), output, g.ll);
+        if (exact){ std::vector<Pt> got = split(grid.getNeededPoints(), d); std::sort(got.begin(), got.end()); std::sort(want.begin(), want.end());
+          fpsym_check(got == want, (tag + "classic refinement with level limits proposes exactly the admissible children of the unlimited proposal").c_str()); }
       } else if (op == "Sv"){
         int nl = grid.getNumLoaded(); size_t ns = (size_t) nl * (output == -1 ? outs : 1);   // the documented size
         std::vector<double> sc(ns); for (size_t i=0;i<ns;i++) sc[i] = fpsym_symbolic(1.0 + 0.1 * (i % 4), 8000 + 200 * step_no + (int) i, 0.25, 2.0);
